@@ -210,6 +210,9 @@ func (c *Ctx) Expired() bool {
 	return false
 }
 
+// Remaining is the wall-clock budget left.
+func (c *Ctx) Remaining() time.Duration { return time.Until(c.deadline) }
+
 // Stopped reports whether enough violations were collected.
 func (c *Ctx) Stopped() bool { return c.stop.Load() }
 
